@@ -376,40 +376,56 @@ def display_mutations(repo, res, rule="D2c"):
 
 # ------------------------------------------------------------------------------------------------ G4 (style dicts)
 def c20_g4(repo, res, rule="G4"):
+    """style dictionaries and dict-valued style keywords are *dict-typed* origins (PD:x): a shallow copy of them is a new container that
+    still holds the caller's nested dicts (N:x).  Neither PD nor N values may be modified, stored in an object or returned."""
     G = "magpylib._src.obj_classes.class_BaseGeo"
     C = "magpylib._src.obj_classes.class_Collection"
     S = "magpylib._src.style"
     D = "magpylib._src.defaults.defaults_utility"
+    PD = lambda n: O({"PD:" + n})      # noqa
     items = [
-        (G, "BaseGeo._process_style_kwargs", False, dict(style=O({"P:style"}), style_label=O({"P:style_label"})), True),
-        (G, "BaseGeo.__init__", False, dict(self=O({"A:self"}), style=O({"P:style"}), style_label=O({"P:style_label"})), False),
-        (G, "BaseGeo.style", True, dict(self=O({"A:self"}), val=O({"P:val"})), False),
-        (C, "BaseCollection.set_children_styles", False, dict(self=O({"A:self"}), arg=O({"P:arg"}), opacity=O({"P:opacity"})), False),
-        (D, "MagicProperties.update", False, dict(self=O({"A:self"}), arg=O({"P:arg"}), color=O({"P:color"})), False),
+        (G, "BaseGeo._process_style_kwargs", False, dict(style=PD("style"), style_path=PD("style_path")), True),
+        (G, "BaseGeo.__init__", False, dict(self=O({"A:self"}), style=PD("style"), style_path=PD("style_path")), False),
+        (G, "BaseGeo.style", True, dict(self=O({"A:self"}), val=PD("val")), False),
+        (C, "BaseCollection.set_children_styles", False, dict(self=O({"A:self"}), arg=PD("arg"), path=PD("path")), False),
+        (D, "MagicProperties.update", False, dict(self=O({"A:self"}), arg=PD("arg"), path=PD("path")), False),
         # the notation helpers receive dicts whose nested values are still the caller's (dict.copy / {**d} copy one level): they
         # must not modify what they are given
-        (D, "magic_to_dict", False, dict(kwargs=O({"P:kwargs"}), separator=Const("_")), False),
-        (D, "update_nested_dict", False, dict(d=O({"P:d"}), u=O({"P:u"}), same_keys_only=Const(False), replace_None_only=Const(False)), False),
-        (D, "linearize_dict", False, dict(kwargs=O({"P:kwargs"}), separator=Const(".")), False),
-        # show() linearises nested `style=` dicts before they reach get_style, so only flat style_* keywords arrive here
+        (D, "magic_to_dict", False, dict(kwargs=PD("kwargs"), separator=Const("_")), False),
+        (D, "update_nested_dict", False, dict(d=PD("d"), u=PD("u"), same_keys_only=Const(False), replace_None_only=Const(False)), False),
+        (D, "linearize_dict", False, dict(kwargs=PD("kwargs"), separator=Const(".")), False),
+        # show() linearises nested `style=` dicts before they reach get_style (checked by G15), so only flat style_* keywords arrive here
         (S, "get_style", False, dict(obj=O({"A:obj"}), default_settings=O({"A:default_settings"}), style_color=O({"P:style_color"})), False),
     ]
     for modname, qual, setter, params, check_return in items:
         node = find_ast(modname, qual, setter)
         out, dom, it = run_node(modname, node, params, name=qual)
         res.evaluations += 1
-        mut = [x for x in dom.mutations if x[0].startswith("P:")]
-        esc = [e for e in dom.escapes if any(p in ("P:style", "P:arg", "P:val") for p in e[0])]
-        ret_alias = sorted(o for o in org_of(out) if o in ("P:style", "P:arg")) if (check_return and out is not None) else []
+        own = ("P:", "PD:", "N:")
+        mut = [x for x in dom.mutations if x[0].startswith(own)]
+        esc = [e for e in dom.escapes if any(p.startswith(("PD:", "N:")) or p in ("P:style", "P:arg", "P:val") for p in e[0])]
+        ret_alias = sorted(o for o in org_of(out) if o.startswith(("PD:", "N:"))) if (check_return and out is not None) else []
         ok = not mut and not esc and not ret_alias
         res.ob(f"{rule}:{qual}", ok, {"rule": rule, "function": qual, "mutates_caller_dict": [x[4] for x in mut], "captures_caller_dict": [e[1] for e in esc],
                                       "returns_caller_dict": ret_alias, "skipped_statements": len(getattr(it, "skipped", []))})
+        seen = set()
         for org, where, line, how, txt in mut:
-            res.add(Finding(rule, modname.replace(".", "/") + ".py", where.split(">")[-1], txt, f"the caller's dictionary ({org}) is modified ({how})", line))
+            if (line, txt) in seen:
+                continue
+            seen.add((line, txt))
+            what = "nested dictionary of the caller's" if org.startswith("N:") else "caller's dictionary"
+            res.add(Finding(rule, modname.replace(".", "/") + ".py", where.split(">")[-1], txt, f"the {what} `{org.split(':', 1)[1]}` is modified ({how})", line))
         for ps, where, fn, line in esc:
-            res.add(Finding(rule, modname.replace(".", "/") + ".py", qual, f"{where} <- {','.join(ps)}", "the caller's dictionary is captured by reference", line))
+            nested = all(p.startswith("N:") for p in ps)
+            res.add(Finding(rule, modname.replace(".", "/") + ".py", qual, f"{where} <- {','.join(ps)}",
+                            "nested dictionaries of the caller's dict are captured by reference (only the outer level was copied)" if nested
+                            else "the caller's dictionary is captured by reference", line))
         if ret_alias:
-            res.add(Finding(rule, modname.replace(".", "/") + ".py", qual, f"returns {ret_alias}", "the caller's dictionary is returned (and stored by the caller) un-copied"))
+            nested = all(p.startswith("N:") for p in ret_alias)
+            res.add(Finding(rule, modname.replace(".", "/") + ".py", qual, f"returns {ret_alias}",
+                            "the value returned (and kept by the caller for the lazy style creation) still holds the caller's nested dictionaries: only the outer "
+                            "level was copied, so a later edit of the caller's dict changes the style that will be applied" if nested
+                            else "the caller's dictionary is returned (and stored by the caller) un-copied"))
 
 
 # ------------------------------------------------------------------------------------------------ core API
